@@ -12,11 +12,12 @@ RULE = ("Hypothesis generates an ordinary concurrent program on one of three sce
         "(caa_cpu_relax, poll, futex wait, contended mutex), it takes at most B of its own steps (B = 600 queues/stacks, 4000 hash table, 60 read lock/unlock), and a "
         "*_nonblocking call returns WOULDBLOCK only if an operation of a suspended thread on that container is in flight. Non-trivial: at the freeze some "
         "suspended thread was inside an operation on the same structure (or inside synchronize_rcu for the read-side family) and the solo thread completed at "
-        "least one operation. distinct = distinct case text.")
+        "least one operation. Second phase (queues/stacks with *_nonblocking variants, half of the cases): the extra thread then resumes everybody, waits until every "
+        "other thread has finished, and issues *_nonblocking calls only - none may return WOULDBLOCK. distinct = distinct case text.")
 ASSUMPTIONS = G.E1_ASSUMPTIONS + ["step bounds are generous constants for the generated structure sizes (<=15 items, <=64 nodes, <=512 buckets); exceeding them is reported as unbounded waiting",
                                   "lock-free operations are run without interference only (solo run), which is what lock-freedom promises", "bounded: <=4 suspended threads, freeze step <= 400 (<= 1300 for the count-driven lazy-shrink programs)"]
 EXAMPLES = {"quick": 250, "thorough": 5000}
-CDS_FLAGS = {1: "wouldblock_returned", 8: "solo_op_completed", 9: "suspended_thread_mid_operation"}
+CDS_FLAGS = {1: "wouldblock_returned", 8: "solo_op_completed", 9: "suspended_thread_mid_operation", 13: "thawed_then_quiescent_nonblocking_calls"}
 LFHT_FLAGS = {9: "suspended_thread_mid_operation", 10: "suspended_mid_resize", 5: "lazy_resize", 11: "ballast_nodes_long_chain_or_full_table"}
 GP_FLAGS = {7: "suspended_inside_synchronize_rcu"}
 
